@@ -2,6 +2,8 @@ package props
 
 import (
 	"pgregory.net/rapid"
+
+	"verifharness/ref"
 )
 
 // genBits draws an unsigned value of the given width with boundary bias:
@@ -83,4 +85,38 @@ func withSpare(b []byte) (in []byte, spareIntact func() bool) {
 		}
 		return true
 	}
+}
+
+// genPayloadBytes draws n bytes meant to be carried as packet payload. One draw
+// in three starts with content that means something to other layers of the
+// library: a well-formed PES packet start (any scrambling bits and flags, with
+// PTS or PTS+DTS), a PSI pointer_field + table header, or another transport
+// packet header. Code that peeks into the payload where it should not is only
+// reachable with such content.
+func genPayloadBytes(t *rapid.T, n int, label string) []byte {
+	b := genBytes(t, n, n, label)
+	var shaped []byte
+	switch rapid.IntRange(0, 8).Draw(t, label+"-shape") {
+	case 0, 1:
+		p := genPES(t, 4)
+		if !ref.PESHasOptionalHeader(p.StreamID) {
+			p.StreamID = rapid.SampledFrom([]byte{0xE0, 0xC0, 0xBD, 0xFD}).Draw(t, label+"-pes-id")
+		}
+		if p.PTSDTS == 0 {
+			p.PTSDTS = 2
+		}
+		if p.Stuffing > 4 {
+			p.Stuffing = rapid.IntRange(0, 4).Draw(t, label+"-pes-stuff")
+		}
+		shaped = p.Bytes()
+	case 2:
+		tid := rapid.SampledFrom([]byte{0x00, 0x02, 0xFC, 0x42}).Draw(t, label+"-tid")
+		sl := rapid.IntRange(0, 0x3FF).Draw(t, label+"-sl")
+		shaped = []byte{0x00, tid, 0xB0 | byte(sl>>8), byte(sl)}
+	case 3:
+		pid := int(genBits(t, 13, label+"-inner-pid"))
+		shaped = []byte{0x47, byte(pid >> 8), byte(pid), byte(rapid.IntRange(1, 3).Draw(t, label+"-inner-afc"))<<4 | byte(rapid.IntRange(0, 15).Draw(t, label+"-inner-cc"))}
+	}
+	copy(b, shaped)
+	return b
 }
